@@ -18,8 +18,8 @@ VARIABLE run
 vars == <<cfg, phase, run>>
 NoRun == [op |-> "none"]
 
-RanksQuick == {-1, 2}
-RanksThorough == {-1, 0, 2}
+RanksQuick == {-3, 2}
+RanksThorough == {-3, 0, 2}
 
 \* the four ways ordering can be educed
 MCKindSet == {"struct", "enum"}
